@@ -1015,7 +1015,7 @@ class C13(WireCfg):
     lean = WireCfg.lean + ["Props.C13", "Audit.C13", "Props.C13api", "Audit.C13api"]
     audit = ["C13", "C13api"]
     wire_streams = [("valid", 10, 60, 100), ("malformed", 3, 60, 100), ("pool", 3, 20, 200)]
-    listed = {"D13", "D20"}
+    listed = {"D20"}
     rule = ("requests generated from each command's grammar (all option subsets and orders, keyword case variants, boundary and malformed "
             "numbers, missing/extra arguments, values that spell keywords) for all 98 dispatched names, over the shared small universes, driven "
             "through the real handler chain in process with a recording redcon.Conn; each line is judged by the Lean wire model, whose command "
